@@ -164,7 +164,7 @@ Proof.
         destruct (Ascii.eqb_spec cc "/"); [congruence|]. rewrite andb_false_r. reflexivity. }
       assert (H2' : c2 = None) by (apply (Hwild "{"); [discriminate|exact H2]).
       assert (H3' : c3 = None) by (apply (Hwild "*"); [discriminate|exact H3]).
-      subst c2 c3. Show. cbn [cor]. rewrite cor_none_r.
+      clear H2 H3. subst c2 c3. cbn [cor]. rewrite cor_none_r.
       rewrite H1. destruct (first_child "/" ch) as [x|] eqn:Ex; cbn [is_none andb].
       * apply first_child_in in Ex. destruct Ex as [Hx Hsx].
         rewrite (m2_nil_pwf _ _ (Hch x Hx)), cor_none_r. unfold rmc.
@@ -224,13 +224,13 @@ Proof.
            destruct (seg is_slash (c0 :: q')) as [|v0 vv] eqn:Ev; [congruence|].
            apply twith_TN in Hm. destruct Hm as (c' & Hm & ->).
            assert (Hlen : List.length (v0 :: vv) <= List.length (c0 :: q')).
-           { rewrite <- Ev. clear. induction (c0 :: q') as [|x l IHl]; simpl; auto. destruct (is_slash x); simpl; lia. }
+           { rewrite <- Ev. clear. induction (c0 :: q') as [|x0 l0 IHl0]; simpl; auto. destruct (is_slash x0); simpl; lia. }
            rewrite skipn_app in Hm.
            replace (List.length (v0 :: vv) - List.length (c0 :: q')) with 0 in Hm by lia. simpl skipn in Hm at 2.
            apply IHkt in Hm; auto. rewrite Hm. unfold rmc.
            destruct (done ++ [TParam nm]) eqn:Ed; [destruct done; discriminate|].
            rewrite andb_false_r. cbn [cor].
-           destruct (km n (Kof n) (sub0of ch) kt (skipn (List.length (v0 :: vv)) (c0 :: q'))) as [[l kvs]|]; reflexivity.
+           destruct (km n (Kof n) (sub0of ch) kt (skipn (List.length (v0 :: vv)) (c0 :: q'))) as [[l1 kvs1]|]; reflexivity.
       * destruct kt as [|t' kt'].
         -- exfalso. destruct (sub0t true ch) as [sb|]; [|discriminate].
            destruct (scant_fin_TD sb (fun v => TD n [(nm', v)]) nm' ltac:(eauto)
